@@ -12,7 +12,8 @@ def run(tier, seed):
     g = gen.Gen(seed * 7919 + 6)
     progs = []
     for i in range(n):
-        p = g.program({"nstrat": g.rng.choice([1, 2, 2, 3]), "requests": False, "nsteps": 2})
+        p = g.program({"nstrat": g.rng.choice([1, 2, 2, 3]), "requests": False, "nsteps": 2, "rounded_splits": 0.25,
+                       "shuffle_comps": 0.5})
         r = g.rng
         strats = [(o["name"], o["strata"]) for o in p["ops"] if o["op"] == "strat"]
         # extra rebalances after the last stratification (several, with and without filters)
